@@ -17,6 +17,7 @@ KNOWN_CLASSES = {
     ('C01', 'synth_name_collision'): 'C06-synthesised-name-collision',
     ('C01', 'panic_parse'): 'C01-service-name-keyword',
     ('C17', 'alias_doc_dropped'): 'C17-description-dropped-on-alias-types',
+    ('C04', 'adapter_value_nested'): 'C04-adapter-type-not-a-direct-member',
 }
 WF = {'t': 0, 'f': 0, 'x': 0, 'f_but_generated': 0}   # Spec/Wf.v hir_ok evaluated by the driver on every extracted table
 # classes of the compile oracle (harness/src/coracle.rs): files rustc is expected to reject -> open finding id
@@ -411,6 +412,91 @@ def exec_run(tier, seed, d):
                 rx = '^' + re.sub(r'\\\{[^}]*\\\}', '[^/]+', re.escape(path)) + '$'
                 if rec.get('method') != verb or not re.match(rx, rec.get('url', '')):
                     findings.append((cid, 'C16', '', f'{what}: the request is {rec.get("method")} {rec.get("url")}, the operation is {verb} {path}', spec))
+    # ---- C04: instances synthesised from the schemas through real serde on the compiled types
+    def norm(v):
+        if isinstance(v, dict):
+            return {k: norm(x) for k, x in v.items() if x is not None and x != [] }
+        if isinstance(v, list):
+            return [norm(x) for x in v]
+        return v
+    by_crate = {}
+    for f in glob.glob(f'{cd}/serde_*.txt'):
+        for l in open(f):
+            q = l.rstrip('\n').split('\t', 5)
+            if len(q) == 6:
+                by_crate.setdefault(q[0], []).append(q)
+    sstats = {'instances': 0, 'round_trips_equal': 0, 'rejected_as_required': 0, 'crates': 0, 'kinds': {},
+              'model_compared': 0, 'model_agrees': 0, 'model_skipped': {}}
+    # what Sem/Serde.v says about every instance (struct level)
+    with open(f'{cd}/scases.txt', 'w') as f:
+        for cid, rows in by_crate.items():
+            if cid in cases:
+                for q in rows:
+                    sx = q[4].split('|')[2] if q[4].count('|') >= 2 else 'null'
+                    f.write(f"{cid} {q[1]} {q[3]} {sx} {cases[cid]}\n")
+    rc, sout, _ = sh(f'{DRIVER} serde < {cd}/scases.txt', timeout=1800)
+    smodel = {}
+    for l in sout.split('\n'):
+        w = l.split(' ')
+        if len(w) == 3:
+            smodel[(w[0], w[1])] = w[2]
+    for cid, rows in by_crate.items():
+        exe = f'{tgt}/debug/examples/lnv_serde_{cid}'
+        if not os.path.exists(exe):
+            continue
+        sstats['crates'] += 1
+        spec = dehex(cases.get(cid, ''))[:5000]
+        inp = ''.join(f'{q[1]}\t{q[2]}\t{q[5]}\n' for q in rows)
+        p = subprocess.run([exe], input=inp, stdout=subprocess.PIPE, stderr=subprocess.PIPE, text=True, timeout=120)
+        got = dict(l.split('\t', 1) for l in p.stdout.split('\n') if '\t' in l)
+        for q in rows:
+            k, ty, schema, kind, js = q[1], q[2], bytes.fromhex(q[3][1:]).decode(), q[4], q[5]
+            kind, flags = kind.split('|')[0], (kind.split('|') + [''])[1]
+            flags = [x for x in flags.split(',') if x]
+            # Sem/Serde.v against real serde_derive, instance by instance
+            mres = smodel.get((cid, k), 'skip:no_answer')
+            rr = got.get(k)
+            if mres.startswith('skip:') or rr is None:
+                sstats['model_skipped'][mres[5:]] = sstats['model_skipped'].get(mres[5:], 0) + 1
+            elif 'adapter_value_nested' in flags and not rr.startswith('ok '):
+                sstats['model_skipped']['open_finding_shape'] = sstats['model_skipped'].get('open_finding_shape', 0) + 1
+            else:
+                sstats['model_compared'] += 1
+                if mres == 'rej':
+                    same = not rr.startswith('ok ')
+                else:
+                    same = rr.startswith('ok ') and norm(json.loads(bytes.fromhex(mres[3:]).decode())) == norm(json.loads(rr[3:]))
+                if same:
+                    sstats['model_agrees'] += 1
+                elif len(disagreements) < 20:
+                    disagreements.append({'case': cid, 'what': f'Sem/Serde.v serde_struct and real serde disagree on an instance of schema {schema} ({kind})',
+                                          'instance': js, 'serde': rr, 'model': mres if mres == 'rej' else bytes.fromhex(mres[3:]).decode(), 'spec': spec})
+            sstats['instances'] += 1
+            kk = kind.split(':')[0]
+            sstats['kinds'][kk] = sstats['kinds'].get(kk, 0) + 1
+            r = got.get(k)
+            if r is None:
+                findings.append((cid, 'C04', '', f'schema {schema} ({kind}): no answer from the serde driver; stderr {p.stderr[-200:]}', spec))
+                continue
+            if kind.startswith('missing:'):
+                if r.startswith('ok '):
+                    findings.append((cid, 'C04', 'missing_member_filled_in', f'schema {schema}: an instance lacking the required member {kind[8:]!r} was accepted ({js} -> {r[3:]})', spec))
+                else:
+                    sstats['rejected_as_required'] += 1
+                continue
+            if not r.startswith('ok '):
+                # the two shapes recorded as open findings, recognised by the label of the instance AND the error serde gives
+                cls = ''
+                if 'adapter_value_nested' in flags and ('expected a formatted date string' in r or 'expected i64' in r or 'invalid type: string' in r):
+                    cls = 'adapter_value_nested'
+                findings.append((cid, 'C04', cls, f'schema {schema} ({kind}): a valid instance was rejected: {js} -> {r}', spec))
+                continue
+            back = json.loads(r[3:])
+            if norm(back) == norm(json.loads(js)):
+                sstats['round_trips_equal'] += 1
+            else:
+                findings.append((cid, 'C04', '', f'schema {schema} ({kind}): {js} came back as {r[3:]}', spec))
+    stats['serde'] = sstats
     shutil.rmtree(cd, ignore_errors=True)
     return stats, findings, disagreements
 
